@@ -199,6 +199,45 @@ def check_two_sandboxes(ctx):
     ctx.expect(paths, ret=3)
 
 
+def check_stale_distance(ctx):
+    ctx.eng.max_strlen = 64
+    n = ctx.sym("n", 32)
+    ctx.assume(n != 0xFFFFFFFF)        # 2^32 destroy cycles bring the 32-bit counter itself back: outside the claim
+    paths = ctx.run("k_cb_stale_any_distance", [n])
+    for q in paths:
+        if q.status != "ret":
+            ctx.require(q, z3.BoolVal(False), "an owner of an earlier incarnation interfered with the current one (%s: %s)" % (q.status, q.info))
+            continue
+        lg = q.user.get("log") or []
+        l19 = [e for e in lg if e[0] == 19]
+        bodies = [(conc(e[1]), conc(e[2])) for e in lg if e[0] == 10]
+        ctx.require(q, z3.BoolVal(bool(l19) and conc(l19[0][1]) == 0 and bodies == [(0, 31), (0, 32)]),
+                    "for every number of incarnations in between, a stale owner's release is ignored and owners of the current incarnation work normally")
+    ctx.only(paths, "ret", "abort")
+    ctx.expect(paths, ret=1)
+
+
+def check_refused_exc(ctx, k, nvals):
+    from specs.C19 import install_exc
+    install_exc(ctx.eng)
+    ctx.eng.max_strlen = 64
+    w = ctx.sym("w", 32)
+    ctx.assume(z3.ULT(w, nvals))
+    paths = ctx.run(k, [w])
+    for q in paths:
+        lg = q.user.get("log") or []
+        if q.status != "ret":
+            ctx.fail(q, "a refused registration left something behind: the function could not be registered afterwards (%s %s)" % (q.status, q.info))
+            continue
+        r14 = [e for e in lg if e[0] == 14]
+        r15 = [e for e in lg if e[0] == 15]
+        bodies = [(conc(e[1]), conc(e[2])) for e in lg if e[0] == 10]
+        ctx.require(q, z3.BoolVal(bool(r14) and conc(r14[0][1]) == 1 and bool(r15) and conc(r15[0][1]) == 0 and bodies == [(0, 9)]),
+                    "the refused registration raised and left no trace: afterwards the function is registered normally and reachable")
+    ctx.only(paths, "ret")
+    ctx.expect(paths, ret=nvals)
+
+
 def check_full_reuse(ctx):
     ctx.eng.max_strlen = 64
     w = ctx.sym("which", 32)
@@ -263,6 +302,11 @@ def jobs(tier, seed):
                    flags=["-D_GLIBCXX_EXTERN_TEMPLATE=0"]))
     out.append(Job("C13_full_exc", NOOP + '#include "C13_full_exc.inc"\n', [dict(name="refused registration leaves no trace (exceptions)", fn=check_full_exc, unwind=400)], native=False,
                    flags=["-D_GLIBCXX_EXTERN_TEMPLATE=0"]))
+    out.append(Job("C13_stale_distance", fsrc, [dict(name="noop: stale owner at any incarnation distance", fn=check_stale_distance, unwind=400)], native=False))
     out.append(Job("C13_two_sandboxes", fsrc, [dict(name="noop: two live sandboxes, one destroyed", fn=check_two_sandboxes, unwind=400)], native=False))
+    esrc = NOOP + '#include "C13_full_exc.inc"\n'
+    out.append(Job("C13_dup_exc", esrc, [dict(name="refused duplicate registration leaves no trace (exceptions)", fn=check_refused_exc, kw=dict(k="k_cb_dup_exc", nvals=3), unwind=400),
+                                         dict(name="registration outside the created window leaves no trace (exceptions)", fn=check_refused_exc, kw=dict(k="k_cb_outside_window_exc", nvals=2), unwind=400)],
+                   native=False, flags=["-D_GLIBCXX_EXTERN_TEMPLATE=0"]))
     out.append(Job("C13_full_reuse", fsrc, [dict(name="registration after release on a full table", fn=check_full_reuse, unwind=400)], native=False))
     return out
